@@ -175,6 +175,8 @@ def find_all(pat: str | Pattern, root: ast.AST, own: bool = True, env: dict | No
         if pat.is_expr:
             if not isinstance(n, ast.expr):
                 continue
+            if strip_cast(n) is not n:
+                continue   # `cast(T, x)`: x itself is visited too - report the construct once
         else:
             if not isinstance(n, ast.stmt):
                 continue
